@@ -70,7 +70,9 @@ T = {  # id: (technique, level text, level note, design ref)
 REFS = {k: '4/' + k for k in T}
 LEVEL = {'C14': 'fault_enumeration'}
 
-built = sorted(f[:-3].upper() for f in os.listdir(os.path.join(HERE, 'props')) if f.startswith('c') and f.endswith('.py'))
+# properties whose module is finished, reviewed and quiet on the current tree (edit by hand)
+BUILT = ['C04', 'C11']
+built = sorted(p for p in BUILT if os.path.exists(os.path.join(HERE, 'props', p.lower() + '.py')))
 checks = []
 for pid in built:
     tech, text, note = T[pid]
